@@ -115,6 +115,7 @@ EXTRA = {
 }
 # additions made during the third round of seeded changes
 EXTRA3 = {
+ "C11": " TestC11Client (the client half): one library client goes through generated histories of Close followed after 0-5000 microseconds by a new Initialize, server notifications and server-issued roots/list requests, over a transport whose cancelled streams take 0-6 ms to notice: once the server has the new listening stream registered it stays registered, notifications reach the client's handler once and roots/list is answered.",
  "C05": " A foreign session may answer a server-issued request with an error object under the same id (not accepted either); a request may be given up before it is issued (context already cancelled): it fails and leaves nothing pending.",
  "C10": " Handlers may emit notifications that cannot be encoded (NaN progress, a channel among the parameters) and go on: the later ones are delivered. 3-400 further handlers are registered by another goroutine while the calls are in flight; a call made afterwards reaches every one of them, in order.",
  "C13": " One request in four carries a token of another class than its session's earlier requests: lists, context values and session data follow the request.",
